@@ -517,5 +517,43 @@ def r14_9(ctx):
     return r
 
 
+def r14_10(ctx):
+    """'protected under the session keys': an SrtpSession holds two keying materials - what WE protect with (tx) and what the
+    peer protects with (rx). A transmit context derived from the receive keying (one wrong argument in a shared helper)
+    still protects, under the wrong key; the peer cannot authenticate it - and since RTP and RTCP of one SSRC share the
+    context, whichever packet kind comes first decides for both. Decided: protect_rtp / protect_rtcp (and what they hand to
+    helpers) mention tx_keying and never rx_keying; unprotect_rtp / unprotect_rtcp the other way round."""
+    r = RuleResult("R14.10", "K6", "transmit contexts are derived from the transmit keying, receive contexts from the receive keying")
+    n = 0
+    for fn, good, wrong in (("protect_rtp", "tx_keying", "rx_keying"), ("protect_rtcp", "tx_keying", "rx_keying"),
+                            ("unprotect_rtp", "rx_keying", "tx_keying"), ("unprotect_rtcp", "rx_keying", "tx_keying")):
+        name = "srtp::SrtpSession::" + fn
+        fam = [nb for nb in ctx.facts.all_bodies() if nb.name == name or nb.name.startswith(name + "::{closure")]
+        if not fam:
+            raise core.CheckerError("R14.10: %s not found" % name)
+        r.scope.append(name)
+        uses = {good: [], wrong: []}
+        for nb in fam:
+            for bi, t, p in nb.calls():
+                tc = nb.term_call(t)
+                for f in (good, wrong):
+                    if mir.has_field(tc, f):
+                        uses[f].append(nb.where(bi))
+            for bi, si, st in nb.assigns():
+                for f in (good, wrong):
+                    if mir.has_field(nb.term_rvalue(st["rv"]), f):
+                        uses[f].append(nb.where(bi, si))
+        n += 1
+        if uses[wrong]:
+            r.violate(name, "keying:%s" % wrong, uses[wrong][0],
+                      "%s derives a context from %s: the packets are protected / opened under the other direction's key" % (fn, wrong))
+        elif uses[good]:
+            r.ok({"function": fn, "keying": good})
+        else:
+            r.violate(name, "keying:none", ctx.facts.body(name).where(0), "%s no longer names the keying material it derives contexts from" % fn)
+    r.need("SrtpSession protect / unprotect functions", n, 4)
+    return r
+
+
 def run(ctx):
-    return [r14_1(ctx), r14_2(ctx), r14_3(ctx), r14_4(ctx), r14_5(ctx), r14_6(ctx), r14_7(ctx), r14_8(ctx), r14_9(ctx)]
+    return [r14_1(ctx), r14_2(ctx), r14_3(ctx), r14_4(ctx), r14_5(ctx), r14_6(ctx), r14_7(ctx), r14_8(ctx), r14_9(ctx), r14_10(ctx)]
